@@ -5,7 +5,7 @@
                                                 get_combined_plutus_scripts (2427-2486), get_witness_set
                                                 (2491-2521), add_required_signer, add_reference_input,
                                                 add_extra_witness_datum
-     rust/src/builders/tx_inputs_builder.rs     TxInputsBuilder: add_key_input / add_bootstrap_input /
+     rust/src/builders/tx_inputs_builder.rs     TxInputsBuilder: add_key_input / add_bootstrap_input / add_*_utxo (well-typed) /
                                                 add_native_script_input / add_plutus_script_input /
                                                 add_required_signer, push_input, insert_input_with_witness,
                                                 get_ref_inputs, get_native_input_scripts,
